@@ -16,7 +16,7 @@ Variable shuf : Z -> list tlt -> list tlt.
 
 Record running (w : world) (c : tlt) : Prop := {
   rn_settled : settled_on w c;
-  rn_state : pstate w = Playing \/ pstate w = Paused;
+  rn_state : pstate w = Playing \/ pstate w = Paused \/ pstate w = Stopped;
   rn_consume : consume w = false;
   rn_fresh : a_fresh w = false;
   rn_atf : a_atf_done w = false;
@@ -32,7 +32,9 @@ Inductive cmd :=
 | CPrevious (x : tlt)
 | CPlay (i : Z) (x : tlt)    (* play(tlid=i), x the entry with that ID *)
 | CSeek (p : Z)
-| CEot (x : tlt).            (* the natural end of the track; x: the entry get_eot_tlid announces *)
+| CEot (x : tlt)             (* the natural end of the track; x: the entry get_eot_tlid announces *)
+| CStop
+| CPlay0.                    (* play() while stopped: the current entry starts again *)
 
 Definition D := Deliver.
 Definition ops_of (st : ps) (c : cmd) : list op :=
@@ -44,6 +46,8 @@ Definition ops_of (st : ps) (c : cmd) : list op :=
   | CPlay i _ => [Play (Some i); D; D; D; D]
   | CSeek p => [Seek p; D]
   | CEot _ => [AboutToFinish; D; D]
+  | CStop => [Stop; D; D]
+  | CPlay0 => [Play None; D; D; D; D]
   end.
 
 Definition target (c : tlt) (k : cmd) : tlt :=
@@ -55,11 +59,13 @@ Definition ok (w : world) (c : tlt) (k : cmd) : Prop :=
   match k with
   | CPause => pstate w = Playing
   | CResume => pstate w = Paused
-  | CNext x => next_track shuf (Some c) w = (Ok (Some x), w) /\ In x (World.tl w)
-  | CPrevious x => previous_track (Some c) w = (Ok (Some x), w) /\ In x (World.tl w)
+  | CNext x => pstate w <> Stopped /\ next_track shuf (Some c) w = (Ok (Some x), w) /\ In x (World.tl w)
+  | CPrevious x => pstate w <> Stopped /\ previous_track (Some c) w = (Ok (Some x), w) /\ In x (World.tl w)
   | CPlay i x => 1 <= i /\ find (fun y => tlid y =? i) (World.tl w) = Some x
-  | CSeek p => exists len, len_of w (trk c) = Some len /\ 0 <= p <= len
+  | CSeek p => pstate w <> Stopped /\ exists len, len_of w (trk c) = Some len /\ 0 <= p <= len
   | CEot x => pstate w = Playing /\ announces_eot shuf w c x /\ In x (World.tl w)
+  | CStop => pstate w <> Stopped
+  | CPlay0 => pstate w = Stopped
   end.
 
 Lemma running_accepts w c x : running w c -> In x (World.tl w) -> accepts w x.
@@ -70,7 +76,7 @@ Qed.
 
 Lemma running_next w c x w' st :
   running w c -> In x (World.tl w) -> settled_on w' x -> stable w w' -> pstate w' = st ->
-  (st = Playing \/ st = Paused) -> running w' x.
+  (st = Playing \/ st = Paused \/ st = Stopped) -> running w' x.
 Proof.
   intros R Hin Hs (T & K & L & C & Rn & Rp & Sg & Sc & Fr & At) Hst Hor.
   constructor.
@@ -98,6 +104,23 @@ Proof.
   cbv zeta. rewrite (run_world_cons shuf).
   rewrite (stepw_eq shuf (S f) (Play (Some i)) w RNone w1 _ _ (run_op_bind_none _ w tt w1 E1) G1).
   destruct (change_settles_full shuf f x c w Hq Hpp Hsa Hsp Hc Hb Hco Hacc) as (A & B & _ & C & _).
+  split; [exact A|split; [exact B|exact C]].
+Qed.
+
+Theorem play_stopped_agreement_full f c w :
+  settled_on w c -> pstate w = Stopped -> consume w = false -> accepts w c ->
+  let w' := run_world shuf (S f) w [Play None; Deliver; Deliver; Deliver; Deliver] in
+  settled_on w' c /\ stable w w' /\ pstate w' = Playing.
+Proof.
+  intros [Hq Hp Hpp Hsa Hsp Hpf Hc Hb Ha] Hst Hco Hacc.
+  assert (Hnp : pstate w <> Paused) by (rewrite Hst; discriminate).
+  pose proof (play_none_run shuf f c w Hnp Hp Hc Hpp Hb Hacc) as E1.
+  set (w1 := fx_change c Playing w) in *.
+  assert (G1 : get_time_position w1 = (Ok (a_pos w1), fx_gtp w1)).
+  { apply (gtp_run w1 c); [exact Hpp|exact Hc|exact Hb]. }
+  cbv zeta. rewrite (run_world_cons shuf).
+  rewrite (stepw_eq shuf (S f) (Play None) w RNone w1 _ _ (run_op_bind_none _ w tt w1 E1) G1).
+  destruct (change_settles_full shuf f c c w Hq Hpp Hsa Hsp Hc Hb Hco Hacc) as (A & B & _ & C & _).
   split; [exact A|split; [exact B|exact C]].
 Qed.
 
@@ -148,35 +171,34 @@ Theorem command_keeps_running f k c w :
 Proof.
   intros R Hok. pose proof (rn_settled w c R) as Hs. pose proof (rn_consume w c R) as Hco.
   pose proof (rn_fresh w c R) as Hfr.
-  destruct k as [| |x|x|i x|p|x]; cbn [ok ops_of target] in *.
+  destruct k as [| |x|x|i x|p|x| |]; cbn [ok ops_of target] in *.
   - (* pause *)
     destruct (pause_agreement_full shuf (S f) c w Hs Hok Hfr) as (A & B & _ & C & _).
-    apply (running_next w c c _ Paused R (rn_in w c R) A B C). right; reflexivity.
+    apply (running_next w c c _ Paused R (rn_in w c R) A B C). right; left; reflexivity.
   - (* resume *)
     destruct (resume_agreement_full shuf (S f) c w Hs Hok Hfr) as (A & B & _ & C & _).
     apply (running_next w c c _ Playing R (rn_in w c R) A B C). left; reflexivity.
   - (* next *)
-    destruct Hok as [Hn Hin]. pose proof (running_accepts w c x R Hin) as Hacc.
-    destruct (rn_state w c R) as [Hst|Hst]; rewrite Hst.
+    destruct Hok as (Hns & Hn & Hin). pose proof (running_accepts w c x R Hin) as Hacc.
+    destruct (rn_state w c R) as [Hst|[Hst|Hst]]; [| |contradiction]; rewrite Hst.
     + destruct (next_prediction_playing_full shuf f x c w Hs Hst Hco Hacc Hn) as (A & B & _ & C & _).
       apply (running_next w c x _ Playing R Hin A B C). left; reflexivity.
     + destruct (next_prediction_paused_full shuf f x c w Hs Hst Hco Hacc Hn) as (A & B & _ & C & _).
-      apply (running_next w c x _ Paused R Hin A B C). right; reflexivity.
+      apply (running_next w c x _ Paused R Hin A B C). right; left; reflexivity.
   - (* previous *)
-    destruct Hok as (Hn & Hin). pose proof (running_accepts w c x R Hin) as Hacc.
-    destruct (rn_state w c R) as [Hst|Hst]; rewrite Hst.
+    destruct Hok as (Hns & Hn & Hin). pose proof (running_accepts w c x R Hin) as Hacc.
+    destruct (rn_state w c R) as [Hst|[Hst|Hst]]; [| |contradiction]; rewrite Hst.
     + destruct (previous_prediction_playing_full shuf f x c w Hs Hst Hco Hacc Hn) as (A & B & _ & C & _).
       apply (running_next w c x _ Playing R Hin A B C). left; reflexivity.
     + destruct (previous_prediction_paused_full shuf f x c w Hs Hst Hco Hacc Hn) as (A & B & _ & C & _).
-      apply (running_next w c x _ Paused R Hin A B C). right; reflexivity.
+      apply (running_next w c x _ Paused R Hin A B C). right; left; reflexivity.
   - (* play(tlid) *)
     destruct Hok as [Hi Hf]. assert (Hin : In x (World.tl w)) by (apply find_some in Hf; tauto).
     pose proof (running_accepts w c x R Hin) as Hacc.
     destruct (play_other_agreement_full f i x c w Hs Hco Hi Hf Hacc) as (A & B & C).
     apply (running_next w c x _ Playing R Hin A B C). left; reflexivity.
   - (* seek *)
-    destruct Hok as (len & Hlen & Hp0 & Hle).
-    assert (Hns : pstate w <> Stopped) by (destruct (rn_state w c R) as [E|E]; rewrite E; discriminate).
+    destruct Hok as (Hns & len & Hlen & Hp0 & Hle).
     assert (Htl : World.tl w <> []) by (intro E; pose proof (rn_in w c R) as Hin; rewrite E in Hin; exact Hin).
     destruct (seek_agreement_full shuf f p c len w Hs Hns Htl Hlen Hp0 Hle) as (A & B & _ & C & _).
     apply (running_next w c c _ (pstate w) R (rn_in w c R) A B C). exact (rn_state w c R).
@@ -191,6 +213,13 @@ Proof.
     + intros Hs0. rewrite Sc, Hs0. reflexivity.
     + intros _. exact Hfresh.
     + intros _. exact Dn.
+  - (* stop *)
+    destruct (stop_agreement_full shuf (S f) c w Hs Hok Hco) as (A & B & _ & C & _).
+    apply (running_next w c c _ Stopped R (rn_in w c R) A B C). right; right; reflexivity.
+  - (* play() while stopped *)
+    pose proof (running_accepts w c c R (rn_in w c R)) as Hacc.
+    destruct (play_stopped_agreement_full f c w Hs Hok Hco Hacc) as (A & B & C).
+    apply (running_next w c c _ Playing R (rn_in w c R) A B C). left; reflexivity.
 Qed.
 
 (* schedules *)
@@ -218,11 +247,14 @@ Qed.
 (* what `running` means for a client: the reported state and entry are the audio layer's *)
 Corollary running_agrees w c :
   running w c ->
-  current w = Some c /\ pending w = None /\ queue w = []
-  /\ a_uri w = Some (trk c) /\ a_state w = pstate w.
+  current w = Some c /\ pending w = None /\ queue w = [] /\ a_state w = pstate w
+  /\ (pstate w <> Stopped -> a_uri w = Some (trk c)).
 Proof.
   intros R. destruct (rn_settled w c R) as [Hq Hp _ _ _ _ Hc _ Ha].
-  destruct (rn_state w c R) as [E|E]; rewrite E in *; destruct Ha as [Hu Has]; auto.
+  destruct (rn_state w c R) as [E|[E|E]]; rewrite E in *.
+  - destruct Ha as [Hu Has]. repeat split; auto.
+  - destruct Ha as [Hu Has]. repeat split; auto.
+  - repeat split; auto. intros H; contradiction.
 Qed.
 
 End P.
@@ -238,7 +270,7 @@ Qed.
 
 Example schedule_example :
   all_ok shuf_concrete 10 w_example (mkTlt 1 0)
-    [CNext (mkTlt 2 1); CPause; CSeek 300; CNext (mkTlt 3 2); CResume; CPlay 1 (mkTlt 1 0)].
+    [CNext (mkTlt 2 1); CPause; CSeek 300; CNext (mkTlt 3 2); CResume; CPlay 1 (mkTlt 1 0); CStop; CPlay0; CPause; CStop].
 Proof.
   cbn [all_ok ok target].
   repeat match goal with
@@ -246,6 +278,7 @@ Proof.
          | |- exists len, _ => exists 900; split; [vm_compute; reflexivity|lia]
          | |- True => exact I
          | |- _ <= _ => lia
+         | |- _ <> _ => vm_compute; discriminate
          | |- In _ _ => vm_compute; auto
          | |- _ = _ => vm_compute; reflexivity
          end.
